@@ -23,7 +23,7 @@ pub fn check() -> Check {
 }
 
 fn plan(tier: Tier) -> Vec<Workload> {
-    vec![Workload::new("sessions", tier.pick(400, 12_000))]
+    vec![Workload::new("sessions", tier.pick(1_200, 40_000))]
 }
 
 const WAIT: Duration = Duration::from_secs(30);
